@@ -113,9 +113,9 @@ func runCase(c Case) (string, info) {
 	var bad string
 	deadlocks := 0
 	var deadlockTrace []int
-	maxRuns := 4000
+	maxRuns := 40000
 	if ev.Thorough() {
-		maxRuns = 40000
+		maxRuns = 400000
 	}
 	runs, complete := glang.Explore(prog, "entry0", 3_000_000, maxRuns, 20000, func(o glang.ThreadedOutcome) bool {
 		if o.Aborted {
